@@ -64,6 +64,48 @@ theorem recoverable_delivers_stream (cF cO : Codec) (rc : RxCfg) (s : SessCfg) (
   · exact hsome
 
 
+/-- **C02 without the FullFDT hypothesis** (ObjectsBeingTransferred mode, objects added after a publish), for
+    the receiver as configured.  Only the instance `f` that is received whole has to list the object (`hlist`);
+    any other instances may complete before, in between and after.  `hfew`: at most 9 FDT instances complete in
+    the whole reception - `countFdt`, the number the driver prints as `fdt=<n>` and the engine compares with the
+    receiver's `fdt_received` callbacks - so that the listing instance is still among the 10 the receiver remembers
+    (`fdt_current`) when the object's next packet arrives.  Everything else as `recoverable_delivers_real`. -/
+theorem recoverable_delivers_any_mode (cF cO : Codec) (rc : RxCfg) (s : SessCfg) (o : ObjCfg)
+    (hto : o.toi ≠ 0) (hN : o.ks.isEmpty = false)
+    (f : FdtCfg) (hlist : f.files.contains o.toi = true) (hfind : s.fdts.find? (fun x => x.id == f.id) = some f)
+    (hfN : f.ks.isEmpty = false) (hflook : f.ks.size ≤ rc.maxLook)
+    (hfresh : blockDone cF.canDecode f.ks s.fdtP [] 0 = false)
+    (stream : List Pkt) (mults : List Nat) (ps1 ps2 : List Pkt)
+    (hfit : FitsBytes rc o (applyMults stream mults))
+    (hfew : countFdt cF.canDecode rc s fdtRx0 (applyMults stream mults) ≤ 9)
+    (hrecv : applyMults stream mults = ps1 ++ ps2)
+    (hgenF : ∀ p, p ∈ stream → p.toi = 0 → p.fdtId = f.id → Genuine (fdtObj s f) (toSym p) ∧ p.close = false)
+    (hgenO : ∀ q, q ∈ osyms o stream → Genuine o q)
+    (hlast : OnlyLast (osyms o stream))
+    (hwhole : AllDec cF (fdtObj s f) (fsyms f.id ps1))
+    (hnoclose : ∀ q, q ∈ osyms o ps1 → q.close = false)
+    (hdec : AllDec cO o (osyms o (ps1 ++ ps2)))
+    (hsome : osyms o (ps1 ++ ps2) ≠ []) :
+    1 ≤ (observe cF.canDecode cO.canDecode rc s o (applyMults stream mults)).completes := by
+  rw [observe_unl cF.canDecode cO.canDecode rc s o hto _ hfit.2.2]
+  have hmem : ∀ p, p ∈ ps1 ++ ps2 → p ∈ stream := by
+    intro p hp; rw [← hrecv] at hp; exact mem_applyMults stream mults p hp
+  have hfew' : fdtCount (eventsFor cF.canDecode (unl rc) s o fdtRx0 (ps1 ++ ps2)) ≤ 9 := by
+    rw [eventsFor_unl, fdtCount_eventsFor cF.canDecode rc s o hto, ← hrecv]; exact hfew
+  rw [hrecv]
+  apply stream_core_few cF cO (unl rc) s o hto hN (fits_unl rc o _ hfit) f hlist hfind hfN hflook hfresh ps1 ps2
+  · intro p hp; exact hgenF p (hmem p (List.mem_append_left _ hp))
+  · exact hwhole
+  · exact hnoclose
+  · intro q hq
+    obtain ⟨p, hp, ht, rfl⟩ := mem_osyms.mp hq
+    exact hgenO _ (mem_osyms.mpr ⟨p, hmem p hp, ht, rfl⟩)
+  · rw [← hrecv]
+    exact closeLast_of_CL _ (closeLast_applyMults o stream mults hlast)
+  · exact hdec
+  · exact hsome
+  · exact hfew'
+
 /-- **C02 for the receiver as configured** (packet-cache limit = block limit = `object_max_cache_size`,
     the configuration the driver runs).  `recoverable_delivers_stream` with the resource hypothesis stated in
     bytes (`FitsBytes`): at most 4096 blocks, the bytes accounted for all blocks of the object within
